@@ -10,3 +10,7 @@ from .C15 import CHECKS as _c15
 
 CHECKS = [c for c in _c15 if c.name == "jac"] + [plumbing_check("C13")]
 TRUSTED = ["torch.autograd.grad(..., retain_graph=False) frees exactly the buffers of the traversed path; a retained sweep frees nothing [T]"]
+
+# mtl_backward: the caller's chunk size / retain flag reach the shared Jac and every task's Grad (pipeline-structure contract)
+from .C02 import mtl_structure as _mtl_structure  # noqa: E402
+CHECKS += [_mtl_structure(2)]
